@@ -217,7 +217,7 @@ fn spec_for(c: &PsoCase, iters: u32) -> Spec<RealP> {
     Spec {
         name: "real_pso",
         variant: format!("{:?}", c),
-        problem: Box::new(move || RealP::new(cc.dim, -1.0, 2.0, [FKind::Sphere, FKind::Shifted, FKind::Linear, FKind::Tiny][cc.kind as usize], Instr::new())),
+        problem: Box::new(move || RealP::new(cc.dim, -1.0, 2.0, [FKind::Sphere, FKind::Shifted, FKind::Linear, FKind::Tiny, FKind::Penalty][cc.kind as usize], Instr::new())),
         make: Box::new(move |cond| {
             let c = &c2;
             if c.assembly == 4 {
@@ -257,6 +257,25 @@ fn spec_for(c: &PsoCase, iters: u32) -> Spec<RealP> {
                             particle_init: ParticleSwarmInit::new(c.v_max)?,
                             particle_update: ParticleVelocitiesUpdate::new(c.start_w, c.c1, c.c2, c.v_max)?,
                             constraints,
+                            inertia_weight_update: Some(mahf::components::mapping::Linear::new(c.start_w, c.end_w, ValueOf::<Progress<ValueOf<Iterations>>>::new(), ValueOf::<W>::new())),
+                            state_update: ParticleSwarmUpdate::new(),
+                        },
+                        cond,
+                    ))
+                    .build())
+            } else if c.assembly == 9 {
+                // the velocity update is constructed with another weight (half the schedule's start weight) than the
+                // inertia-weight schedule prescribes: from the first inertia-weight update on the schedule's value is stored
+                use mahf::lens::ValueOf;
+                Ok(mahf::Configuration::builder()
+                    .do_(mahf::components::initialization::RandomSpread::new(c.n))
+                    .evaluate()
+                    .update_best_individual()
+                    .do_(pso::pso::<RealP, Global>(
+                        pso::Parameters {
+                            particle_init: ParticleSwarmInit::new(c.v_max)?,
+                            particle_update: ParticleVelocitiesUpdate::new(0.5 * c.start_w, c.c1, c.c2, c.v_max)?,
+                            constraints: boundary::Saturation::new(),
                             inertia_weight_update: Some(mahf::components::mapping::Linear::new(c.start_w, c.end_w, ValueOf::<Progress<ValueOf<Iterations>>>::new(), ValueOf::<W>::new())),
                             state_update: ParticleSwarmUpdate::new(),
                         },
@@ -362,7 +381,7 @@ pub fn cases(thorough: bool) -> Vec<PsoCase> {
                     if !thorough && sw == 1.2 && vmax != width {
                         continue;
                     }
-                    for assembly in 0..9u8 {
+                    for assembly in 0..10u8 {
                         if assembly > 0 && (sw != 0.9 || (!thorough && vmax != width)) {
                             continue;
                         }
@@ -373,6 +392,18 @@ pub fn cases(thorough: bool) -> Vec<PsoCase> {
                     }
                 }
             }
+        }
+    }
+    // a death-penalty objective: (nearly) every position is infeasible, i.e. evaluates to +inf
+    for &n in &[1u32, 3] {
+        for assembly in [0u8, 7] {
+            v.push(PsoCase { n, dim: 2, start_w: 0.9, end_w: 0.4, c1: 1.5, c2: 1.5, v_max: width, kind: 4, assembly });
+        }
+    }
+    // constant schedules (start = end) with a velocity update that was constructed with another weight
+    for (sw, c1, c2) in [(0.9, 1.5, 1.5), (1.25, 0.0, 0.0), (0.5, 0.0, 2.0)] {
+        for &n in &[1u32, 3] {
+            v.push(PsoCase { n, dim: 2, start_w: sw, end_w: sw, c1, c2, v_max: width, kind: 0, assembly: 9 });
         }
     }
     // stored weights above 1 without random terms: the old velocity is scaled by exactly the stored weight
